@@ -63,6 +63,11 @@ FINDING (unchanged tree, see section 9 at the end): xtype.foreign-command.
 """
 from pyvc.api import contract
 
+# The external calls that belong to the download protocol.  Bookkeeping on the connection-state callbacks of the Crazyflie
+# object (a fetcher may register on `cf.disconnected` to abandon the download when the link goes away) is not part of it and
+# is not constrained by these clauses.
+PROTOCOL_CALLS = "tuple([x for x in calls() if not x.startswith('cf.disconnected.')])"
+
 TOC = 'cflib.crazyflie.toc'
 LOG = 'cflib.crazyflie.log'
 PAR = 'cflib.crazyflie.param'
@@ -244,7 +249,7 @@ def _step_accept(kind, v2, lg, ln):
                      ("pack('<BH', 2, r + 1)" if v2 else "pack('<BB', 0, r + 1)"))
             c.ensure('retry-pattern', "tuple(rq_kw['expected_reply']) == tuple(rq.data)")
         else:
-            c.ensure('completion-sequence', "calls() == ('cache.insert', 'cf.remove_port_callback', 'finished')")
+            c.ensure('completion-sequence', PROTOCOL_CALLS + " == ('cache.insert', 'cf.remove_port_callback', 'finished')")
             c.ensure('nothing-transmitted', "len(sent('cf.send_packet')) == 0")
             c.ensure('cache-gets-checksum-and-table', "sent('cache.insert')[0][1][0] == crc and sent('cache.insert')[0][1][1] is toc.toc")
             c.ensure('own-callback-unregistered', "sent('cf.remove_port_callback')[0][1][0] == PORT and "
@@ -408,7 +413,7 @@ def _fetch(kind, N, fault, cache='stub'):
         device_table(c, kind, N, wide_types=(N == 1))
         c.call((f, 'start'))
         c.ensure('start-no-exception', 'raised is None')
-        c.ensure('registers-own-callback-then-asks-for-info', "calls() == ('cf.platform.get_protocol_version', 'cf.add_port_callback', 'cf.send_packet') "
+        c.ensure('registers-own-callback-then-asks-for-info', PROTOCOL_CALLS + " == ('cf.platform.get_protocol_version', 'cf.add_port_callback', 'cf.send_packet') "
                  "and sent('cf.add_port_callback')[0][1][0] == PORT and sent('cf.add_port_callback')[0][1][1] == f._new_packet_cb")
         answered = 0
         asked = []
@@ -450,12 +455,12 @@ def _fetch(kind, N, fault, cache='stub'):
         c.let('asked', tuple(asked))
         c.ensure('info-then-each-index-once-in-order', 'asked == (None,) + tuple(range(N))')
         if cache == 'stub':
-            c.ensure('nothing-else-happens', "calls() == ('cf.platform.get_protocol_version', 'cf.add_port_callback') + ('cf.send_packet', 'cache.fetch') + "
+            c.ensure('nothing-else-happens', PROTOCOL_CALLS + " == ('cf.platform.get_protocol_version', 'cf.add_port_callback') + ('cf.send_packet', 'cache.fetch') + "
                      "('cf.send_packet',) * N + ('cache.insert', 'cf.remove_port_callback', 'finished')")
             c.ensure('cache-consulted-and-fed-with-device-checksum', "sent('cache.fetch')[0][1] == (crc,) and sent('cache.insert')[0][1][0] == crc "
                      "and sent('cache.insert')[0][1][1] is toc.toc")
         else:
-            c.ensure('nothing-else-happens', "calls() == ('cf.platform.get_protocol_version', 'cf.add_port_callback') + "
+            c.ensure('nothing-else-happens', PROTOCOL_CALLS + " == ('cf.platform.get_protocol_version', 'cf.add_port_callback') + "
                      "('cf.send_packet',) * (N + 1) + ('cf.remove_port_callback', 'finished')")
         c.ensure('completion-signalled-exactly-once', "len(sent('finished')) == 1 and sent('finished')[0][1] == ()")
         c.ensure('own-callback-unregistered', "sent('cf.remove_port_callback')[0][1][0] == PORT and sent('cf.remove_port_callback')[0][1][1] == f._new_packet_cb")
@@ -585,7 +590,7 @@ def cache_hit(c):
     c.ensure('cache-asked-for-the-announced-checksum', "sent('cache.fetch')[0][1] == (crc,)")
     c.ensure('cached-table-adopted', 'toc.toc is cached')
     c.ensure('only-the-info-request-was-transmitted', "len(sent('cf.send_packet')) == 1")
-    c.ensure('completion-exactly-once-and-nothing-else', "calls() == ('cf.platform.get_protocol_version', 'cf.add_port_callback', 'cf.send_packet', "
+    c.ensure('completion-exactly-once-and-nothing-else', PROTOCOL_CALLS + " == ('cf.platform.get_protocol_version', 'cf.add_port_callback', 'cf.send_packet', "
              "'cache.fetch', 'cf.remove_port_callback', 'finished')")
     c.ensure('own-callback-unregistered', "sent('cf.remove_port_callback')[0][1][0] == PORT and sent('cf.remove_port_callback')[0][1][1] == f._new_packet_cb")
 
@@ -861,7 +866,7 @@ def _info(kind):
             last_request(c, 0)
             c.ensure('request-layout', "rq.port == PORT and rq.channel == 0 and bytes(rq.data) == " + ("pack('<BH', 2, 0)" if v2 else "pack('<BB', 0, 0)"))
         else:
-            c.ensure('empty-table-complete-at-once', "calls() == ('cache.fetch', 'cache.insert', 'cf.remove_port_callback', 'finished')")
+            c.ensure('empty-table-complete-at-once', PROTOCOL_CALLS + " == ('cache.fetch', 'cache.insert', 'cf.remove_port_callback', 'finished')")
             c.ensure('cache-fed-with-the-empty-table', "sent('cache.insert')[0][1][0] == crc and sent('cache.insert')[0][1][1] is toc.toc")
     return k
 
